@@ -11,12 +11,16 @@
 (*         (CntOf / Norm2Of over Patches \ {k}) equals the totals the real *)
 (*         library measured on catalogs from which patch k was physically  *)
 (*         removed (all catalogs re-created without its records), and      *)
+(*   Full  (precondition of Prop) the from-scratch statistic over ALL       *)
+(*         patches equals the recorded totals of the full measurement -    *)
+(*         otherwise the code's statistic is not the model's (drift), and  *)
 (*   Spec  JackknifeIsLeaveOneOut holds on this data.                      *)
 (* All recorded numbers are doubled (halved auto diagonal) integers.       *)
 (* One record per line of IOEnv.TRACE_FILE:                                *)
 (*   cnt[f][m][b][i][j]  2 * counts          wt[f][role][b][i]             *)
 (*   sps[f][m].counts / .sumw = [data[b], samples[k][b]]   (2 * value)     *)
 (*   red[f][m] = [cnt[k][b], norm[k][b]]     (2 * value, re-measured)      *)
+(*   full[f][m] = [cnt[b], norm[b]]          (2 * value, full measurement) *)
 (***************************************************************************)
 EXTENDS Jackknife, Json, IOUtils, TLCExt
 
@@ -62,5 +66,9 @@ Prop == \A o \in Objs : \A k \in Patches, b \in Bins :
            /\ CntOf(o, b, Patches \ {k}) = T.red[o[1]][o[2]].cnt[k][b]
            /\ Norm2Of(o, b, Patches \ {k}) = T.red[o[1]][o[2]].norm[k][b]
 
-Verdict == TDone => PrintT(<<"verdict", tid, Impl, Prop, JackknifeIsLeaveOneOut /\ FrameUnchanged>>)
+Full == \A o \in Objs : \A b \in Bins :
+           /\ CntOf(o, b, Patches) = T.full[o[1]][o[2]].cnt[b]
+           /\ Norm2Of(o, b, Patches) = T.full[o[1]][o[2]].norm[b]
+
+Verdict == TDone => PrintT(<<"verdict", tid, Impl, Prop, JackknifeIsLeaveOneOut /\ FrameUnchanged, Full>>)
 =============================================================================
